@@ -21,6 +21,7 @@
 #include "stir/recon_buildblock/ProjectorByBinPair.h"
 #include "stir/analytic/FBP2D/FBP2DReconstruction.h"
 #include "stir/RelatedViewgrams.h"
+#include "stir/recon_buildblock/BinNormalisationFromProjData.h"
 #include "stir/RegisteredParsingObject.h"
 #include "stir/ProjDataInterfile.h"
 #include <sstream>
@@ -521,12 +522,35 @@ op_processed(const Plan& p, const Op& op)
   else if (which == 2)
     {
       // the objective function: sensitivity (back projection only) and gradient (forward and back) per subset
-      PoissonLogLikelihoodWithLinearModelForMeanAndProjData<target_type> obj;
+      class Obj : public PoissonLogLikelihoodWithLinearModelForMeanAndProjData<target_type>
+      {
+      public:
+        void force_tofsens(bool v) { this->use_tofsens = v; }
+      };
+      Obj obj;
       obj.set_proj_data_sptr(y);
       obj.set_projector_pair_sptr(shared_ptr<ProjectorByBinPair>(new RecPair(matrix, &seen)));
       obj.set_use_subset_sensitivities(true);
       obj.set_recompute_sensitivity(true);
       obj.set_num_subsets(n);
+      // normalisation: none, from TOF data (then the sensitivities are TOF too), from non-TOF data; TOF sensitivities on request
+      const int norm_kind = (int)(op.arg(8) % 3);
+      const bool force_tofsens = tof && op.arg(7) % 2 == 0;
+      if (norm_kind)
+        {
+          shared_ptr<ProjDataInfo> npdi = norm_kind == 1 ? pdi : shared_ptr<ProjDataInfo>(pdi->create_non_tof_clone());
+          shared_ptr<ProjDataInMemory> nd(new ProjDataInMemory(exam, npdi));
+          sim::Rng nr(sim::mix(p.seed, 23));
+          std::vector<float> v(nd->size_all());
+          for (auto& x : v)
+            x = (float)(1 + nr.below(3));
+          nd->fill_from(v.begin());
+          obj.set_normalisation_sptr(shared_ptr<BinNormalisation>(new BinNormalisationFromProjData(nd)));
+          sim::probe("processed_with_normalisation");
+        }
+      if (force_tofsens)
+        obj.force_tofsens(true);
+      const bool tofsens = tof && (force_tofsens || norm_kind == 1);
       const int max_seg = (int)(op.arg(6) % (pdi->get_max_segment_num() + 2)) - 1; // -1: all
       if (max_seg >= 0)
         obj.set_max_segment_num_to_process(max_seg);
@@ -534,6 +558,8 @@ op_processed(const Plan& p, const Op& op)
       shared_ptr<target_type> target(image->clone());
       std::vector<std::vector<SVT>> sens((size_t)n), gf((size_t)n), gb((size_t)n);
       bool ok = true;
+      seen.fwd.clear();
+      seen.bck.clear();
       try
         {
           ok = obj.set_up(target) == Succeeded::yes;
@@ -547,6 +573,14 @@ op_processed(const Plan& p, const Op& op)
           sim::probe("processed_objective_set_up_refused");
           return;
         }
+      // set_up computed all subset sensitivities: over all subsets every (segment, view, TOF bin of the sensitivity geometry) once
+      {
+        std::vector<std::vector<SVT>> all(1, seen.bck);
+        shared_ptr<ProjDataInfo> spdi = tofsens ? pdi : shared_ptr<ProjDataInfo>(pdi->create_non_tof_clone());
+        check_processed(all, *spdi, -hi, hi, tofsens ? "sensitivity_tof" : "sensitivity",
+                        "subset sensitivities computed by set_up, back projections over all subsets");
+        sim::probe(tofsens ? "processed_tof_sensitivities" : "processed_sensitivities");
+      }
       // set_up computed the subset sensitivities: n back projections in subset order
       {
         // attribute the recorded back projections to subsets through a second, explicit request
